@@ -233,3 +233,17 @@ Definition no_inverse_clash (s : tsig) : bool :=
   forallb (fun p => negb (wants_inverse s p &&
                           mem ("no-" ++ dashed (p_name p))%string
                               (map (fun q => dashed (p_name q)) (s_params s)))) (s_params s).
+
+(** the proved region of the flagship theorem *)
+Definition guard (s : tsig) : bool :=
+  wf_sig s && all_have_core s && no_steal s && no_inverse_clash s.
+
+(** explicit positional lists are judged in full only when they are
+    duplicate-free lists of parameter names *)
+Definition positional_sane (s : tsig) : bool :=
+  match d_positional (s_deco s) with
+  | None => true
+  | Some l => negb (has_dup l) && forallb (fun n => mem n (map p_name (s_params s))) l
+  end.
+
+Definition full_guard (s : tsig) : bool := guard s && positional_sane s.
